@@ -307,3 +307,38 @@ def copy_code_tree(dst):
                     REPO + "/", dst + "/"], check=True)
     os.makedirs(os.path.join(dst, "Rules"), exist_ok=True)
     return dst
+
+
+def run_cli(args, cwd, env=None, timeout=120, feed=None):
+    """Run a repository CLI with stdin kept OPEN (a pipe nobody writes to, unless
+    [feed] bytes are given) until the process ends: a closed/EOF stdin makes the
+    guesser's keyboard thread die, which the unrepaired session loop takes for a
+    quit request (property C12) - checks of other properties must not depend on
+    that.  Returns (returncode, stdout bytes, stderr bytes)."""
+    p = subprocess.Popen(args, cwd=cwd, env=env or subenv(), stdin=subprocess.PIPE,
+                         stdout=subprocess.PIPE, stderr=subprocess.PIPE)
+    import threading
+    out = {}
+
+    def rd(name, f):
+        out[name] = f.read()
+    t1 = threading.Thread(target=rd, args=("o", p.stdout))
+    t2 = threading.Thread(target=rd, args=("e", p.stderr))
+    t1.start()
+    t2.start()
+    try:
+        if feed:
+            p.stdin.write(feed)
+            p.stdin.flush()
+        p.wait(timeout=timeout)
+    except subprocess.TimeoutExpired:
+        p.kill()
+        p.wait()
+    finally:
+        try:
+            p.stdin.close()
+        except Exception:
+            pass
+    t1.join()
+    t2.join()
+    return p.returncode, out.get("o", b""), out.get("e", b"")
